@@ -36,6 +36,10 @@ RULE = ("sweep: one case per (configuration, clause, Z, A) where clause is one o
         "non-trivial = val(unc) whose unc digit count differs from the number of decimals of val, or a [low,high] "
         "range; distinct by string.")
 ASSUMPTIONS = [
+    "interpreter modes: a reduced sweep (all clauses except the function-route and ion clauses, which need live "
+    "objects) is run on the values dumped by a child interpreter started with -O, -OO, -W error::DeprecationWarning "
+    "and -W error (public table, a private table, public again); table loading and attribute reads only, no formula "
+    "parsing; the unchanged tree loads under all four, so a child that fails is c06:mode:<flags>:child-failed",
     "init(table, reload=flag): reload is a plain flag (documented default reload=False); the truthy values True, 1 and "
     "numpy.True_ all request a re-initialisation (each on its own customised table, which must then equal the embedded "
     "tables again), the falsy values False, 0, None, numpy.False_ and the default must leave a customised table as it is",
@@ -296,8 +300,174 @@ def oracle():
     return _O
 
 
+# ----------------------------------------------------------------------
+# Interpreter modes: configurations "mode:<flags>:<table>".  A child interpreter (/venv/bin/python <flags> -c SCRIPT,
+# PYTHONPATH = the repository under test) imports periodictable, initialises a private table as well, and dumps every
+# value the sweep judges as JSON; the parent wraps the dump in read-only stand-ins for table/element/isotope and
+# runs the ordinary clauses on them (the function-route and ion clauses need live objects and are left out).
+MODES = {"O": ["-O"], "OO": ["-OO"], "W-error-DeprecationWarning": ["-W", "error::DeprecationWarning"],
+         "W-error": ["-W", "error"]}
+MODE_CHILD = r"""
+import json, sys
+import periodictable
+from periodictable import core, mass, density
+
+def val(f):
+    try:
+        v = f()
+    except BaseException as e:
+        return {"exc": "%s: %s" % (type(e).__name__, e)}
+    if v is None or isinstance(v, (bool, int, float, str)):
+        return v
+    try:
+        return float(v)
+    except Exception:
+        return {"exc": "unexpected value %r" % (v,)}
+
+def dump(table):
+    out = {}
+    for z in range(0, 119):
+        try:
+            el = table[z]
+        except BaseException as e:
+            out[str(z)] = {"exc": "%s: %s" % (type(e).__name__, e)}
+            continue
+        d = {"symbol": val(lambda: el.symbol), "number": val(lambda: el.number)}
+        for k, name in (("mass", "mass"), ("unc", "_mass_unc"), ("density", "density"),
+                        ("number_density", "number_density"), ("interatomic_distance", "interatomic_distance")):
+            d[k] = val(lambda: getattr(el, name))
+        isos = {}
+        try:
+            alist = list(el.isotopes)
+        except BaseException as e:
+            alist = []
+            d["isotopes_exc"] = "%s: %s" % (type(e).__name__, e)
+        for a in alist:
+            i = {}
+            for k, name in (("mass", "mass"), ("unc", "_mass_unc"), ("abundance", "abundance"), ("density", "density"),
+                            ("number_density", "number_density"), ("interatomic_distance", "interatomic_distance")):
+                i[k] = val(lambda: getattr(el[a], name))
+            isos[str(a)] = i
+        d["isotopes"] = isos
+        out[str(z)] = d
+    return out
+
+res = {"optimize": sys.flags.optimize, "warnoptions": list(sys.warnoptions)}
+res["public"] = dump(periodictable.elements)
+T = core.PeriodicTable("c06-mode-private")
+mass.init(T)
+density.init(T)
+res["private"] = dump(T)
+res["public-after-private"] = dump(periodictable.elements)
+json.dump(res, sys.stdout)
+"""
+_MODE_DUMPS = {}
+
+
+class ChildRaised(Exception):
+    """The child interpreter got an exception where the sweep reads a value."""
+
+
+class ChildFailed(Exception):
+    """The child interpreter did not produce a dump."""
+
+
+class _PAtom(object):
+    _alias = {"_mass_unc": "unc"}
+
+    def __init__(self, d, label):
+        self.__dict__["_d"] = d
+        self.__dict__["_label"] = label
+
+    def __getattr__(self, name):
+        d = self.__dict__["_d"]
+        key = self._alias.get(name, name)
+        if key not in d:
+            raise AttributeError(name)
+        v = d[key]
+        if isinstance(v, dict) and "exc" in v:
+            raise ChildRaised("%s.%s raised %s" % (self.__dict__["_label"], name, v["exc"]))
+        return v
+
+    def __str__(self):
+        return self.__dict__["_label"]
+
+    __repr__ = __str__
+
+
+class _PElement(_PAtom):
+    def __init__(self, z, d):
+        if "exc" in d:
+            d = {"symbol": {"exc": d["exc"]}, "number": z, "isotopes": {}}
+        _PAtom.__init__(self, d, "%s" % (d.get("symbol") if isinstance(d.get("symbol"), str) else "Z=%d" % z))
+        self.__dict__["isotopes"] = sorted(int(a) for a in d.get("isotopes", {}))
+        self.__dict__["ions"] = []
+        self.__dict__["_isos"] = dict((int(a), _PAtom(dict(v, isotope=int(a)), "%s-%s" % (self.__dict__["_label"], a)))
+                                      for a, v in d.get("isotopes", {}).items())
+
+    def __getitem__(self, a):
+        if "isotopes_exc" in self.__dict__["_d"]:
+            raise ChildRaised("%s.isotopes raised %s" % (self, self.__dict__["_d"]["isotopes_exc"]))
+        try:
+            return self.__dict__["_isos"][a]
+        except KeyError:
+            raise ChildRaised("%s has no isotope %r in the child interpreter" % (self, a))
+
+    def __iter__(self):
+        return iter([self.__dict__["_isos"][a] for a in self.__dict__["isotopes"]])
+
+
+class _PTable(object):
+    def __init__(self, d):
+        self._els = dict((int(z), _PElement(int(z), v)) for z, v in d.items())
+
+    def __getitem__(self, z):
+        return self._els[z]
+
+    def __iter__(self):
+        return iter([self._els[z] for z in sorted(self._els)])
+
+
+def run_child(flags, script, stdin=""):
+    """Run *script* in /venv/bin/python <flags> with the repository under test first on the path; returns the parsed
+    JSON dump or raises ChildFailed(stderr tail)."""
+    import json
+    import os
+    import subprocess
+    import sys
+    from ..runner import REPO
+    e = dict((k, v) for k, v in os.environ.items() if k not in ("PYTHONOPTIMIZE", "PYTHONWARNINGS", "PYTHONHASHSEED"))
+    e.update(PYTHONPATH=REPO, PYTHONDONTWRITEBYTECODE="1")
+    r = subprocess.run([sys.executable] + list(flags) + ["-c", script], input=stdin, capture_output=True, text=True,
+                       env=e, cwd="/tmp", timeout=600)
+    if r.returncode != 0:
+        raise ChildFailed("exit %d: %s" % (r.returncode, r.stderr.strip()[-600:]))
+    try:
+        return json.loads(r.stdout)
+    except ValueError as x:
+        raise ChildFailed("output is not JSON (%s): %s" % (x, r.stdout[-300:]))
+
+
+def mode_env(config):
+    _, flags, which = config.split(":")
+    if flags not in _MODE_DUMPS:
+        try:
+            _MODE_DUMPS[flags] = run_child(MODES[flags], MODE_CHILD)
+        except ChildFailed as x:
+            _MODE_DUMPS[flags] = x
+    d = _MODE_DUMPS[flags]
+    if isinstance(d, ChildFailed):
+        raise d
+    key = ("table", flags, which)
+    if key not in _MODE_DUMPS:
+        _MODE_DUMPS[key] = _PTable(d[which])
+    return _MODE_DUMPS[key]
+
+
 def env(config):
     """The table of a configuration (built once per process, in the order the name says)."""
+    if config.startswith("mode:"):
+        return mode_env(config)
     if config in RELOAD:
         return reload_env(config)
     if config in _ENV:
@@ -391,10 +561,20 @@ def _unreadable(u, case):
 def check_row(ctx, case):
     """One clause for one nuclide.  case = {kind:'row', config, check, z, a}.  A clause that needs an unreadable
     cell reports that cell (one bucket) and is skipped; everything else goes on."""
+    mode = case["config"].split(":")[1] if case["config"].startswith("mode:") else None
     try:
         _check_row(ctx, case)
     except Unreadable as u:
         raise _unreadable(u, case)
+    except ChildFailed as x:
+        raise V("mode:%s:child-failed" % mode, "python %s: the child interpreter failed: %s" % (" ".join(MODES[mode]), x), case)
+    except ChildRaised as x:
+        raise V("mode:%s:exception" % mode, "python %s: %s" % (" ".join(MODES[mode]), x), case)
+    except Violation as v:
+        if mode is None:
+            raise
+        raise Violation("c06:mode:%s:%s" % (mode, v.bucket.split(":", 1)[1]),
+                        "python %s: %s" % (" ".join(MODES[mode]), v.message), v.case)
 
 
 def _check_row(ctx, case):
@@ -604,18 +784,42 @@ def _check_nd(atom, rho, m, case):
         raise V("interatomic-distance", "%s n*d^3 = %r (n=%r d=%r)" % (atom, (n * d ** 3) if _num(d) else None, n, d), case)
 
 
+def _sym(table, z):
+    try:
+        return table[z].symbol
+    except ChildRaised:
+        return "?"
+
+
+def _number_of(el):
+    try:
+        return el.number
+    except ChildRaised:
+        return None
+
+
 def sweep(ctx, config):
     O = oracle()
+    reduced = config.startswith("mode:")
+    if reduced:
+        try:
+            table = env(config)
+        except ChildFailed as x:
+            mode = config.split(":")[1]
+            ctx.case((config, "child"), nontrivial=True, sample={"config": config}, cls=["config:" + config])
+            ctx.violation("c06:mode:%s:child-failed" % mode, "python %s: the child interpreter failed: %s"
+                          % (" ".join(MODES[mode]), x), {"kind": "row", "config": config, "check": "weight", "z": 0, "a": 0})
+            return
     table = env(config)
 
     def run(check, z, a, cls, **extra):
         case = dict({"kind": "row", "config": config, "check": check, "z": z, "a": a}, **extra)
         ctx.case((config, check, z, a) + tuple(sorted(extra.items())), nontrivial=True,
-                 sample={"config": config, "check": check, "nuclide": "%d-%s%s" % (z, table[z].symbol, "-%d" % a if a else "")},
+                 sample={"config": config, "check": check, "nuclide": "%d-%s%s" % (z, _sym(table, z), "-%d" % a if a else "")},
                  cls=["config:" + config] + cls)
         ctx.check(check_row, case)
 
-    numbers = sorted(el.number for el in table)
+    numbers = sorted(z for z in (_number_of(el) for el in table) if z is not None)
     if numbers != list(range(0, 119)) and numbers != list(range(1, 119)):
         ctx.violation("c06:elements", "[%s] table iterates elements %r" % (config, numbers[:5]),
                       {"kind": "row", "config": config, "check": "weight", "z": 1, "a": 0})
@@ -632,10 +836,11 @@ def sweep(ctx, config):
             run("weight", z, 0, ["weight:" + O["weight"][z]["src"]])
         else:
             run("weight", 0, 0, ["weight:neutron"])
-        known = _dens_label(el.symbol)
+        known = _dens_label(_sym(table, z))
         run("density", z, 0, ["density:" + known])
-        run("functions", z, 0, ["function-route:element:density-" + known])
-        if z and el.ions:
+        if not reduced:
+            run("functions", z, 0, ["function-route:element:density-" + known])
+        if z and el.ions and not reduced:
             c = list(el.ions)[0]
             run("ion-sample", z, 0, ["ion-sample:element-ion"], charge=c)
             isos = [k for k in el.isotopes if (z, k) in O["iso"]]
@@ -656,7 +861,8 @@ def sweep(ctx, config):
             run("abundance", z, a, [k])
             if z:
                 run("isotope-density", z, a, ["isotope-density:" + known])
-                run("functions", z, a, ["function-route:isotope:density-" + known])
+                if not reduced:
+                    run("functions", z, a, ["function-route:isotope:density-" + known])
         if z in O["abund"]:
             run("abundance-sum", z, 0, ["abundance-sum+weighted-mass"])
     # abundance rows whose isotope has no mass row are reported by the abundance clause
@@ -821,6 +1027,13 @@ def tasks(tier):
             dict(configs=["reload:public:customised", "reload:public:private-while-customised",
                           "reload:public:customised-after-falsy-init",
                           "reload:public:reloaded", "reload:public:private-after-reload"])),
+           ("interpreter-modes-O", task_sweep,
+            dict(configs=["mode:O:public", "mode:O:private", "mode:O:public-after-private",
+                          "mode:OO:public", "mode:OO:private", "mode:OO:public-after-private"])),
+           ("interpreter-modes-W", task_sweep,
+            dict(configs=["mode:W-error-DeprecationWarning:public", "mode:W-error-DeprecationWarning:private",
+                          "mode:W-error-DeprecationWarning:public-after-private",
+                          "mode:W-error:public", "mode:W-error:private", "mode:W-error:public-after-private"])),
            ("sweep-public-reload-np", task_sweep,
             dict(configs=["reload:public-np:customised", "reload:public-np:customised-after-falsy-init",
                           "reload:public-np:reloaded"]))]
